@@ -6,7 +6,7 @@ from .common import Exc
 from .oracle_env import env_for
 from .lru_common import call, components, grammar_urls, SCHEMES, USERINFO, HOSTS, PORTS, PATHS, QUERIES, FRAGS
 
-THEOREMS = ["C12_ends_with_bar", "C12_pin_serialized_splitter", "C12_pin_port_splitter", "C12_stems_round_trip", "C12_round_trips (computed examples)", "(round trip / inverse clauses: harness deciders + correspondence — partial)"]
+THEOREMS = ["C12_ends_with_bar", "C12_pin_serialized_splitter", "C12_pin_port_splitter", "C12_stems_round_trip", "C12_stems_round_trip_no_port", "C12_round_trips (computed examples)", "(round trip / inverse clauses: harness deciders + correspondence — partial)"]
 REGEXES = ["PORT_SPLITTER", "SERIALIZED_LRU_SPLITTER_RE", "PROTOCOL_RE", "SPECIAL_HOSTS_RE"]
 
 
